@@ -281,10 +281,15 @@ class OperatorNode(ASTNode):
 
         op = self.op_map.get(xop, xop)
 
-        if self.type == Token.OP_PRE:
-            return self.value + args[0].emit
-
         parent = self.parent
+        if self.type == Token.OP_PRE:
+            ss = self.value + args[0].emit
+            if (isinstance(parent, OperatorNode) and parent.value == '^' and
+                    parent.children[0] is self):
+                # python's ** binds tighter than a unary operator on its left
+                ss = "(" + ss + ")"
+            return ss
+
         if op == '%':
             ss = f'{args[0].emit} / 100'
         elif op == ' ':
